@@ -32,7 +32,12 @@ Inductive ev :=
 | ECommit (post : N) (delivered : bool)(* an application on R commits; the forward's response reaches R or is lost *)
 | ERelease (sent : bool)               (* R gives the lock up: clears it locally, then DELETE /halt (which may be lost) *)
 | EExpire                              (* P's TTL monitor finds the lock overdue *)
-| EForeign (id : N) (post : N).        (* another client posts /tx?lockID=id with a file that extends P *)
+| EForeign (id : N) (post : N)         (* another client posts /tx?lockID=id with a file that extends P *)
+| ECommitWal (post : N) (delivered : bool) (* the same commit on a WAL-mode database: SQLite has finished writing when LiteFS
+                                          forwards (at the release of the WAL write lock), so a forward that fails or whose answer
+                                          is lost cannot be rolled back - CommitWAL calls Exit and R restarts (db.go CommitWAL) *)
+| ERestart.                            (* R's process dies and restarts: what it believed about the lock is gone, its log is durable
+                                          (in WAL mode a failed forwarded commit ends in exactly this: CommitWAL calls Exit) *)
 
 (* result codes *)
 Definition c_refused : N := 0.
@@ -60,6 +65,8 @@ Definition forward (s : sys) (id : N) (e : entry) : sys * bool :=
 
 Definition release_primary (s : sys) (id : N) : sys :=
   if holds (phalt s) id then {| plog := plog s; phalt := None; rlock := rlock s; rlog := rlog s; olog := olog s |} else s.
+
+Definition restart (s : sys) : sys := {| plog := plog s; phalt := phalt s; rlock := None; rlog := rlog s; olog := olog s |}.
 
 Definition step (s : sys) (e : ev) : sys * N :=
   match e with
@@ -102,6 +109,18 @@ Definition step (s : sys) (e : ev) : sys * N :=
   | EExpire => ({| plog := plog s; phalt := None; rlock := rlock s; rlog := rlog s; olog := olog s |}, c_ok)
   | EForeign id post =>
     let '(s1, ok) := forward s id (next_entry (plog s) post 2) in (s1, if ok then c_ok else c_refused)
+  | ECommitWal post delivered =>
+    match rlock s with
+    | None => (restart s, c_refused)
+    | Some (id, _) =>
+      let e := next_entry (rlog s) post 1 in
+      let '(s1, ok) := forward s id e in
+      if negb ok then (restart s1, c_refused)
+      else if delivered
+           then ({| plog := plog s1; phalt := phalt s1; rlock := rlock s1; rlog := e :: rlog s1; olog := olog s1 |}, c_ok)
+           else (restart s1, c_applied_but_unacknowledged)
+    end
+  | ERestart => (restart s, c_ok)
   end.
 
 (* ---- the stream: after each event the replicas take what the primary's log has for them ---- *)
